@@ -972,12 +972,20 @@ def project_search(sc, run):
     """StepSizeSearchTrace vocabulary. Returns the list of lines of all searches of one chain."""
     lines = [{"e": "reset"}]
     cur = None     # state of the search being projected
+    last_leap = None
+    # initial step and target: the configured ones (effective settings the harness built the chain from)
+    eff = next((e.get("settings") for e in run if e["ev"] == "schema" and e.get("settings")), None)
+    esss = (eff or {}).get("adapt_options", {}).get("step_size_settings", {})
     for ev in run:
         k = ev["ev"]
         if k == "search_start":
-            cur = {"initial": f_from_bits(ev["initial"]), "target": f_from_bits(ev["target"]),
+            cur = {"initial": esss.get("initial_step", f_from_bits(ev["initial"])),
+                   "target": esss.get("target_accept", f_from_bits(ev["target"])),
                    "est0": ev["est"], "acc0": None}
+            last_leap = None
             lines.append({"e": "start"})
+        elif k == "leap" and cur is not None:
+            last_leap = ev
         elif k == "search_try":
             if cur is None:
                 lines.append({"e": "orphan_try"})
@@ -1003,9 +1011,19 @@ def project_search(sc, run):
                 cur["acc0"] = (ev["acc"], ev["res"])
             elif ev["n"] == 1 and cur["acc0"] is not None:
                 same = (cur["acc0"] == (ev["acc"], ev["res"]))
+            # the probe's acceptance is the documented function of its one leapfrog: min(1, exp(E0 - E)), 0 for a failed one
+            accok = True
+            if last_leap is not None and last_leap.get("res") == "ok" and last_leap.get("energy") and last_leap.get("e0") \
+                    and ev["res"] == "ok":
+                diff = f_from_bits(last_leap["e0"]) - f_from_bits(last_leap["energy"])
+                if diff == diff and acc == acc:
+                    accok = close(acc, math.exp(min(diff, 0.0)), rel=1e-12, abs_=1e-300)
+            elif last_leap is not None and last_leap.get("res") == "div" and acc == acc:
+                accok = (acc == 0.0)
+            last_leap = None
             lines.append({"e": "try", "n": ev["n"], "dir": ev["dir"], "res": ev["res"], "side": side,
                           "kexp": kexp, "hi": bool(step > 1e5), "lo": bool(step < 1e-10), "same": bool(same),
-                          "dbg": "acc=%r step=%r" % (acc, step)})
+                          "accok": bool(accok), "dbg": "acc=%r step=%r" % (acc, step)})
         elif k == "search_end":
             step = f_from_bits(ev["step"])
             if ev["outcome"] == "fixed":
